@@ -332,6 +332,53 @@ fn main() {
             let world = m.get("world").cloned().unwrap_or_else(|| "WMix".to_string());
             dispatch_world(&world, || c07enum::<vh::worlds::wmix::WMix>(&m), || c07enum::<vh::worlds::wone::WOne>(&m), || c07enum::<Wide>(&m)).unwrap_or(3)
         }
+        "decode" => {
+            // decode a libFuzzer input into a replayable .ops file and run it
+            let path = pos.first().expect("input file");
+            let data = std::fs::read(path).expect("read input");
+            match vh::fuzzdec::decode(&data) {
+                None => {
+                    println!("UNDECODABLE {}", path);
+                    0
+                }
+                Some((case, profile)) => {
+                    let out_path = m.get("out").cloned().unwrap_or_else(|| format!("{}.ops", path));
+                    let fail = vh::fuzzdec::run(&case);
+                    let head = match &fail {
+                        Some(f) => format!("# libFuzzer input decoded with profile {}\n# {}\n# failed at step {} [{}] sig={}\n", profile, one_line(&f.msg), f.step, f.tags.join("+"), f.sig),
+                        None => format!("# libFuzzer input decoded with profile {}\n", profile),
+                    };
+                    std::fs::write(&out_path, format!("{}{}", head, case.to_text())).expect("write ops");
+                    match fail {
+                        Some(f) => {
+                            println!("FAIL prop=any sig={} tags={} step={} replay={} msg={}", f.sig, f.tags.join("+"), f.step, out_path, one_line(&f.msg));
+                            1
+                        }
+                        None => {
+                            println!("PASS decoded {} -> {} ({} ops)", path, out_path, case.ops.len());
+                            0
+                        }
+                    }
+                }
+            }
+        }
+        "seed-corpus" => {
+            let dir = m.get("out").expect("--out DIR");
+            std::fs::create_dir_all(dir).expect("mkdir");
+            let seed: u64 = m.get("seed").map(|s| s.parse().unwrap()).unwrap_or(1);
+            let mut k = 0;
+            for p in 0..vh::fuzzdec::PROFILES.len() as u8 {
+                for w in [0u8, 3u8] {
+                    for n in [8usize, 40, 120] {
+                        let bytes = vh::fuzzdec::seed_input(p, w, n, seed.wrapping_mul(1000).wrapping_add(k));
+                        std::fs::write(format!("{}/seed-{:03}", dir, k), bytes).expect("write");
+                        k += 1;
+                    }
+                }
+            }
+            println!("wrote {} corpus files", k);
+            0
+        }
         "cycles" => {
             let limit: u64 = m.get("limit").map(|s| s.parse().unwrap()).unwrap_or(u64::MAX);
             match vh::worlds::wone::cycles(limit) {
